@@ -395,8 +395,11 @@ def invoke(model, kind, call, names, ci):
         df = s.sample(call["n"])
         vals = np.asarray(df.values, dtype=float)
         cols_ok = [str(c) for c in df.columns] == [r.id for r in model.reactions]
+        w = np.asarray(s.warmup, dtype=float)       # warm-up geometry: root-cause tag of F66
         return [[fx(x) for x in row] for row in vals], [], {
-            "digest": hashlib.sha1(vals.tobytes()).hexdigest()[:20] + ("" if cols_ok else "-columns")}
+            "digest": hashlib.sha1(vals.tobytes()).hexdigest()[:20] + ("" if cols_ok else "-columns"),
+            "nwarm": int(w.shape[0]),
+            "wmid": bool(w.shape[0] == 3 and np.allclose(w[2], (w[0] + w[1]) / 2.0, rtol=0, atol=1e-9))}
     raise C.Machinery("unknown kind %r" % (kind,))
 
 
@@ -438,6 +441,8 @@ def run_trace(tr, source):
             signal.alarm(0)
         if kind == "optgp":
             rec.setdefault("digest", "-")
+            rec.setdefault("nwarm", 0)
+            rec.setdefault("wmid", False)
         workers = _collect(call_id) if ev != "none" else []
         rec["observer_errors"] = [e.get("err") for w in workers for e in w if e["e"] == "x"]
         rec["workers"] = [[{"e": e["e"], "task": (e["task"] if kind == "optgp" else names.item(e["task"])),
